@@ -693,3 +693,128 @@ Proof.
   rewrite Hk. change (slen (body0 ++ tlvs)) with (len (body0 ++ tlvs)). rewrite len_app.
   replace (16 + (len body0 + len tlvs)) with (16 + len body0 + len tlvs) by lia. reflexivity.
 Qed.
+
+(* ------------------------------------------------------------ registry completeness *)
+(* The command_id registry of the running code (Gen/PduLayouts.v, dumped from pdu.types) is EXACTLY the set of
+   operations of SMPP v5: both transcriptions of the specification agree, every operation is registered, nothing
+   else is; ids are distinct, so the lookup by id is a bijection between the 33 layouts and the 33 operations. *)
+Lemma spec_lists_agree : map (fun o : op => fst (fst o)) smpp5_ops = spec_command_ids.
+Proof. vm_compute. reflexivity. Qed.
+Lemma registry_is_spec : map l_id layouts = spec_command_ids.
+Proof. vm_compute. reflexivity. Qed.
+Lemma spec_ids_nodup : NoDup spec_command_ids.
+Proof.
+  assert (H : forall l : list N, (fix nd (l : list N) : bool := match l with [] => true | x :: r => negb (existsb (N.eqb x) r) && nd r end) l = true -> NoDup l).
+  { induction l as [|x r IH]; intros Hl; [constructor|].
+    apply andb_true_iff in Hl. destruct Hl as [Hx Hr]. constructor; [|apply IH; exact Hr].
+    intros Hin. apply negb_true_iff in Hx.
+    assert (existsb (N.eqb x) r = true) as E by (apply existsb_exists; exists x; split; [exact Hin | apply N.eqb_refl]).
+    congruence. }
+  apply H. vm_compute. reflexivity.
+Qed.
+Theorem registry_complete :
+  map l_id layouts = spec_command_ids /\
+  List.length layouts = 33%nat /\
+  (forall id, In id spec_command_ids -> exists l, In l layouts /\ l_id l = id /\ find_layout layouts id = Some l) /\
+  (forall l, In l layouts -> In (l_id l) spec_command_ids /\ exists o, find_op smpp5_ops (l_id l) = Some o) /\
+  (forall id, ~ In id spec_command_ids -> find_layout layouts id = None).
+Proof.
+  split; [exact registry_is_spec|]. split; [vm_compute; reflexivity|]. split; [|split].
+  - intros id Hin. rewrite <- registry_is_spec in Hin. apply in_map_iff in Hin. destruct Hin as [l [Hid Hl]].
+    exists l. split; [exact Hl|]. split; [exact Hid|]. rewrite <- Hid. apply layouts_find. exact Hl.
+  - intros l Hl. split; [rewrite <- registry_is_spec; apply in_map; exact Hl|].
+    assert (H : forallb (fun l => match find_op smpp5_ops (l_id l) with Some _ => true | None => false end) layouts = true)
+      by (vm_compute; reflexivity).
+    rewrite forallb_forall in H. specialize (H l Hl). destruct (find_op smpp5_ops (l_id l)) as [o|]; [exists o; reflexivity | discriminate].
+  - intros id Hn. rewrite <- registry_is_spec in Hn.
+    induction layouts as [|l ls IH]; [reflexivity|]. cbn [find_layout].
+    destruct (N.eqb_spec (l_id l) id) as [E|E]; [exfalso; apply Hn; left; exact E|].
+    apply IH. intros Hin. apply Hn. right. exact Hin.
+Qed.
+
+(* ------------------------------------------------------------ the decoder on specification layouts, WITHOUT a Marshal hypothesis *)
+(* Frames a conforming peer may send that Marshal itself never produces: a TLV with a zero-length value
+   (section 4.8.1 allows length 0), and sm_length 141..255 (4.7.28: 0..255).  The theorems above reach the decoder
+   only through [marshal _ _ = Ok _]; these do not. *)
+Lemma spec_udh_body u : forallb wf_ie u = true ->
+  List.concat (map (fun e => fst e :: slen (snd e) :: snd e) u) = enc_udh_body u.
+Proof.
+  intros Hw. unfold enc_udh_body. induction u as [|[k d] u IH]; [reflexivity|].
+  cbn [forallb] in Hw. apply andb_true_iff in Hw. destruct Hw as [He Hr]. unfold wf_ie in He. cbn [fst snd] in He.
+  apply andb_true_iff in He. destruct He as [He _]. apply andb_true_iff in He. destruct He as [_ Hl].
+  cbn [map List.concat flat_map fst snd]. rewrite (IH Hr). rewrite slen_len, (N.mod_small (len d) 256) by lia. reflexivity.
+Qed.
+
+Definition tlv_ok0 (e : N * bytes) : bool := (fst e <? 65536) && (len (snd e) <? 65536) && octetsb (snd e).
+
+Lemma dec_tags_loop_any0 l : forall fuel m b,
+  forallb tlv_ok0 l = true -> lay_all lay_tlv l = Some b -> (List.length l <= fuel)%nat ->
+  dec_tags_loop fuel b m = Ok (ins_all l m).
+Proof.
+  unfold ins_all. induction l as [|[k v] r IH]; intros fuel m b Hw Hl Hf; cbn [lay_all fold_left] in *.
+  - injection Hl as <-. destruct fuel; reflexivity.
+  - cbn [forallb] in Hw. apply andb_true_iff in Hw. destruct Hw as [Hkv Hr]. unfold tlv_ok0 in Hkv. cbn [fst snd] in *.
+    apply andb_true_iff in Hkv. destruct Hkv as [Hkv Ho]. apply andb_true_iff in Hkv. destruct Hkv as [Hk Hlt].
+    unfold lay_tlv at 1 in Hl. cbn [fst snd] in Hl. rewrite slen_len, Hk, Hlt in Hl. cbn [andb] in Hl.
+    destruct (lay_all lay_tlv r) as [rb|] eqn:Er; [|discriminate]. apply Some_inj in Hl. subst b.
+    destruct fuel as [|fuel]; [cbn in Hf; lia|].
+    change (slen v) with (len v). rewrite (be2_be16 k), (be2_be16 (len v)).
+    unfold be16. rewrite <- !app_assoc. cbn [app dec_tags_loop].
+    rewrite (de16_be16 k) by lia. rewrite (de16_be16 (len v)) by lia.
+    destruct (N.eqb_spec (len v) 0) as [E0|E0].
+    + destruct v as [|x v]; [|rewrite len_cons in E0; lia]. cbn [app].
+      apply IH; [exact Hr | reflexivity | cbn [List.length] in Hf; lia].
+    + destruct (v ++ rb) as [|x xs] eqn:Evr.
+      { destruct v; [cbn in E0; lia | discriminate]. }
+      rewrite <- Evr. rewrite len_app. destruct (N.leb_spec (len v) (len v + len rb)); [|lia].
+      rewrite len_nat. rewrite firstn_app_l, firstn_all by lia. rewrite skipn_app_l, skipn_all by lia. cbn [app].
+      apply IH; [exact Hr | reflexivity | cbn [List.length] in Hf; lia].
+Qed.
+
+(* a TLV section laid out from the specification — any tags, any order, duplicates, values of 0..65535 octets —
+   decodes to the map holding, per tag, the LAST value sent (an empty value included) *)
+Theorem dec_tags_spec l b :
+  forallb tlv_ok0 l = true -> lay_all lay_tlv l = Some b -> dec_tags b = Ok (kv_sort l).
+Proof.
+  intros Hw Hl. unfold dec_tags, kv_sort. fold (ins_all l []).
+  apply dec_tags_loop_any0; [exact Hw | exact Hl | apply lay_all_tlv_len; exact Hl].
+Qed.
+
+(* the short-message region laid out from the specification: [data_coding] sm_default_msg_id sm_length short_message,
+   short_message = user data header (when the indicator is set) followed by the message; ANY sm_length 0..255 *)
+Theorem spec_short_decodes (rep : bool) (dc dflt : N) (u : option kvs) (msg rest : bytes) :
+  (rep = true -> u = None) ->
+  match u with Some u' => wf_udh u' = true | None => True end ->
+  let o := (match u with Some u' => spec_udh u' | None => [] end) ++ msg in
+  len o <= 255 ->
+  dec_short rep (match u with Some _ => true | None => false end)
+            ((if rep then [] else [dc]) ++ [dflt; len o] ++ o ++ rest)
+  = Ok ({| sm_dflt := dflt; sm_dc := (if rep then NoCoding else dc); sm_udh := u; sm_msg := msg |}, rest).
+Proof.
+  intros Hrep Hwf o Hlen. subst o.
+  destruct u as [u|].
+  - destruct rep; [specialize (Hrep eq_refl); discriminate|].
+    assert (Henc : exists b, enc_udh u = Ok b).
+    { unfold enc_udh. unfold wf_udh in Hwf. apply andb_true_iff in Hwf. destruct Hwf as [Hs Hw].
+      rewrite (kv_sort_sorted u Hs), (wf_udh_no_oversize u Hw). eexists. reflexivity. }
+    destruct Henc as [b Hb].
+    assert (Hbl : len b = len (spec_udh u)).
+    { clear Hlen Hrep. unfold enc_udh in Hb. unfold wf_udh in Hwf. apply andb_true_iff in Hwf. destruct Hwf as [Hs Hw].
+      rewrite (kv_sort_sorted u Hs), (wf_udh_no_oversize u Hw) in Hb. apply Ok_inj in Hb. subst b.
+      unfold spec_udh. rewrite (spec_udh_body u Hw). rewrite !len_cons. reflexivity. }
+    rewrite len_app in Hlen.
+    assert (Hb255 : len b <= 255) by lia.
+    pose proof (spec_udh_enc u b Hwf Hb Hb255) as Hsp. subst b.
+    destruct (dec_udh_enc u (spec_udh u) (msg ++ rest) Hwf Hb Hb255) as [Hd Hl].
+    unfold dec_short. cbn [app dec_u8 obind].
+    rewrite <- app_assoc. rewrite Hd. cbn [obind]. rewrite <- Hl. rewrite len_app.
+    replace ((len (spec_udh u) + len msg + 256 - len (spec_udh u) mod 256) mod 256) with (len msg) by lia.
+    rewrite take_app. reflexivity.
+  - cbn [app] in *. destruct rep.
+    + unfold dec_short. cbn [app dec_u8 obind].
+      replace ((len msg + 256 - 0 mod 256) mod 256) with (len msg) by lia.
+      rewrite take_app. reflexivity.
+    + unfold dec_short. cbn [app dec_u8 obind].
+      replace ((len msg + 256 - 0 mod 256) mod 256) with (len msg) by lia.
+      rewrite take_app. reflexivity.
+Qed.
